@@ -8,8 +8,10 @@ import Model.Collection
 
   `World.fetch` is `client.FetchURL` (its semantics — redirects, cache — are C03's subject):
   the object served and the final source URL.  `World.parse` is `url.Parse` with `String()` and
-  `Host`.  References are absolute in every world the check generates, so
-  `source.ResolveReference(ref) = ref` (the harness verifies this with the real library).
+  `Host`.  `World.resolve` is `source.ResolveReference(ref)` (a reference found in an object is
+  resolved against that object's id; without a source the reference is used as it stands); the
+  check supplies it as an oracle table computed with the real library (relative references,
+  dot segments), and it is the identity wherever the table has no entry.
   Items carry the JSON object they were built from as a ghost field (`obj`) so that provenance
   can be stated.  Presentation fields (body, media, timestamps …) are not part of this model.
 -/
@@ -27,6 +29,8 @@ abbrev O := List (Str × JVal)
 structure World where
   fetch : Str → Option (O × U)
   parse : Str → Option U
+  /-- `source.ResolveReference(ref)`; with no source the reference itself -/
+  resolve : Option U → U → U := fun _ ref => ref
   /-- the link list `GetMarkup(key, "mediaType")` reports for an object (`[]` when the body is
       absent or unrenderable); the renderers themselves are modelled in Model/Hypertext.lean etc.
       and the numbering is C12's subject — here only the list is needed (UI model) -/
@@ -61,7 +65,7 @@ def fetchUnknown (w : World) (input : JVal) (source : Option U) : Except Unit (O
     | .str s =>
       match w.parse s with
       | none => .error ()
-      | some ref => match w.fetch ref.str with
+      | some ref => match w.fetch (w.resolve source ref).str with
         | some (o, src) => .ok (o, some src)
         | none => .error ()
     | .obj kvs => .ok (kvs, source)
